@@ -84,8 +84,9 @@ class RepoPolicy(Policy):
         return True
 
     def user_role(self, owner_func, param_name):
-        """'body' | 'plugin' | None for a callable supplied through parameter `param_name` of `owner_func`"""
-        return 'plugin'
+        """'body' | 'plugin' | None for a callable supplied through parameter `param_name` of `owner_func`
+        (None: a framework-owned object, resolved by interface / method name)"""
+        return None
 
     def reentry_methods(self, frame):
         return ()
@@ -223,6 +224,24 @@ class RepoPolicy(Policy):
                            if fr is not None else [('other', a.value)])
             return out
         return [('other', e)]
+
+    def static_truth(self, test, frame):
+        """truth value of a test that is a (negated) name bound to a constant through parameter bindings"""
+        if isinstance(test, ast.UnaryOp) and isinstance(test.op, ast.Not):
+            v = self.static_truth(test.operand, frame)
+            return None if v is None else (not v)
+        if isinstance(test, ast.Constant):
+            return bool(test.value)
+        if isinstance(test, ast.Name):
+            owner, kind = self.owner_of(test.id, frame.func)
+            if owner is frame.func and kind == 'param':
+                b = frame.binding.get(test.id)
+                if b is not None and b[0] in ('expr', 'default'):
+                    if isinstance(b[1], ast.Constant):
+                        return bool(b[1].value)
+                    if b[0] == 'expr' and b[2] is not None:
+                        return self.static_truth(b[1], b[2])
+        return None
 
     def is_self(self, name, func):
         f = func
@@ -369,8 +388,19 @@ class RepoPolicy(Policy):
                     m = cls.lookup(meth) if cls is not None else None
                     if m is not None:
                         return self.func_target(m, call, frame, for_with=for_with)
-                    ft = self.field_types.get((cls.name, meth)) if cls is not None else None
-                    return Target('opaque', 'self-field-callable:' + meth, raises=self.excm.ordinary, role='plugin')
+                    ft = None
+                    for c in (cls.mro() if cls is not None else []):
+                        ft = self.field_types.get((c.name, meth))
+                        if ft is not None:
+                            break
+                    if ft is not None and ft[0] == 'param':
+                        m2 = self.ctor_arg_method(cls, ft[1])
+                        if m2 is not None:
+                            return self.func_target(m2, call, frame)
+                        init = cls.lookup('__init__')
+                        if self.user_role(init, ft[1]) is not None:
+                            return self.user_target(init, ft[1], None, call, frame)
+                    return Target('opaque', 'self-field-callable:' + meth, raises=self.excm.ordinary, role='dynamic')
                 # ClassName.method
                 cinfo = None
                 if recv.id in mod.classes:
@@ -428,8 +458,47 @@ class RepoPolicy(Policy):
             return self.unknown_receiver(recv, meth, call, frame)
         # ---------------- (expr)(...)
         if isinstance(f, ast.IfExp):
+            arms = [f.body, f.orelse]
+            tv = self.static_truth(f.test, frame)
+            if tv is not None:
+                arms = [f.body] if tv else [f.orelse]
+            ts = []
+            for arm in arms:
+                synth = ast.copy_location(ast.Call(func=arm, args=call.args, keywords=call.keywords), call)
+                ts.append(self.call_target(synth, frame))
+            if len(ts) == 1:
+                return ts[0]
+            if all(t.kind == 'opaque' for t in ts):
+                raises = frozenset().union(*[t.raises for t in ts])
+                return Target('opaque', 'either(%s)' % ' | '.join(t.label for t in ts), raises=raises, role=ts[0].role)
             return Target('opaque', 'dynamic:' + norm(f), raises=self.excm.ordinary, role='dynamic')
         return Target('opaque', 'unknown:' + norm(f))
+
+    def ctor_arg_method(self, cls, param):
+        """if every constructor call of `cls` in the package passes `self.<method>` of a repo class for `param`,
+        return that method"""
+        init = cls.lookup('__init__')
+        if init is None or param not in init.params:
+            return None
+        idx = init.params.index(param) - 1
+        found = []
+        for f in self.repo.all_functions():
+            for n in ast.walk(f.node) if f.parent is None else []:
+                if isinstance(n, ast.Call) and isinstance(n.func, ast.Name) and n.func.id == cls.name:
+                    arg = None
+                    if 0 <= idx < len(n.args):
+                        arg = n.args[idx]
+                    for k in n.keywords:
+                        if k.arg == param:
+                            arg = k.value
+                    if isinstance(arg, ast.Attribute) and isinstance(arg.value, ast.Name) and arg.value.id == 'self' \
+                            and f.cls is not None and f.cls.lookup(arg.attr) is not None:
+                        found.append(f.cls.lookup(arg.attr))
+                    else:
+                        return None
+        if found and len({id(x) for x in found}) == 1:
+            return found[0]
+        return None
 
     def _is_builtin_exception(self, name):
         import builtins
@@ -496,6 +565,10 @@ class RepoPolicy(Policy):
 
     def user_target(self, owner, param, meth, call, frame):
         role = self.user_role(owner, param)
+        if role is None:
+            if meth is None:
+                return Target('opaque', 'param-callable:' + param, raises=self.excm.ordinary, role='dynamic')
+            return self.unknown_receiver(ast.Name(id=param, ctx=ast.Load()), meth, call, frame)
         label = 'user-%s:%s%s' % (role, param, ('.' + meth) if meth else '')
         if meth is not None and meth in BENIGN_METHODS and role != 'body' and not self.plugin_method(owner, param, meth):
             return Target('opaque', 'method:' + meth + '@' + param, role='lib')
